@@ -76,6 +76,34 @@ def run_replay(binname, argv, repo, env):
     r = subprocess.run([exe] + argv, capture_output=True, text=True)
     return (r.stdout + r.stderr).strip()[-1500:]
 
+def run_replay_rc(binname, argv, repo, env):
+    """like run_replay, returns (exit code or None when the binary could not be built, output); scratch repositories share one
+    target directory so that the dependencies are compiled once"""
+    rdir = os.path.join(VERIF, 'replay')
+    env = dict(env)
+    lock = open(os.path.join(VERIF, 'build', '.replay.lock'), 'w')
+    fcntl.flock(lock, fcntl.LOCK_EX)
+    try:
+        if os.path.abspath(repo) != '/repo':
+            rdir2 = os.path.join(os.path.abspath(repo), '.vx-replay')
+            shutil.rmtree(rdir2, ignore_errors=True)
+            shutil.copytree(rdir, rdir2, ignore=shutil.ignore_patterns('target', 'target-scratch'))
+            ct = open(os.path.join(rdir2, 'Cargo.toml')).read().replace('path = "/repo"', 'path = "%s"' % os.path.abspath(repo))
+            open(os.path.join(rdir2, 'Cargo.toml'), 'w').write(ct)
+            tdir = os.path.join(VERIF, 'replay', 'target-scratch')
+            rdir = rdir2
+        else:
+            tdir = os.path.join(rdir, 'target')
+        env['CARGO_TARGET_DIR'] = tdir
+        b = subprocess.run(['cargo', 'build', '--release', '--offline', '--bin', binname], cwd=rdir, env=env, capture_output=True, text=True)
+        exe = os.path.join(tdir, 'release', binname)
+        if b.returncode != 0 or not os.path.exists(exe):
+            return None, "replay binary could not be built: " + b.stderr[-500:]
+        r = subprocess.run([exe] + argv, capture_output=True, text=True)
+        return r.returncode, (r.stdout + r.stderr).strip()[-1500:]
+    finally:
+        fcntl.flock(lock, fcntl.LOCK_UN)
+
 def counterexample(crate, env, h, repo):
     """asks Kani for a concrete counterexample and replays it on the real code through /verif/replay"""
     try:
